@@ -5,7 +5,9 @@ message is read by an independent reader (xml.etree/expat) and compared (a) with
 oracle: the Appendix-F schema of the operation and path assertions for every caller string / fragment, (c) with the binding
 oracle: every namespace binding in scope at an element of a caller document (and every entry of an XPath filter's prefix map)
 is in scope at that element of the request (tools/harness/nsscope.py; model coq/Model/NsScope.v, runner fn 8).
-The carries theorems (Spec/Template.v, CarriesBase.v, CarriesVendor.v; runner fn 10 / 11) are corresponded by tools/harness/carries.py."""
+The carries theorems (Spec/Template.v, CarriesBase.v, CarriesVendor.v; runner fn 10 / 11) are corresponded by tools/harness/carries.py.
+The device profiles' hook on the finished request (transform_edit_config; Builders.transform_edit_config, runner fn 12; theorems C07_hook_frame, C07_hook_root_only) is corresponded
+through Manager calls whose caller data is named like the envelope (run_envelope_names, all 14 profiles, cross-profile oracle profile_frame) and directly on arbitrary trees (run_hooks)."""
 import json, os, glob
 ID = 'C07'
 COQ_ROOTS = ['Props/C07.v', 'GenProps/Caps_consts.v', 'GenProps/Gating_consts.v', 'GenProps/Builders_consts.v', 'GenProps/Vendor_consts.v']
@@ -26,7 +28,15 @@ RULE = ('case = (device profile, operation, argument record). Operations: the 19
         'of the open findings; every case with a caller document is read with a scope-tracking expat reader and compared element by element. '
         'Carries (tools/harness/carries.py): fresh draws of the same generators (all standard operations x 14 profiles, all 30 vendor classes); the extracted template '
         'instance wrap (fill (values c) (template (erase c))) (runner fn 10 / 11) is compared with the captured request, holes = 0..n-1; frame oracle on the implementation '
-        'alone: two calls that differ in ONE caller value of the same class give requests that differ in exactly one text node / attribute value / element name.')
+        'alone: two calls that differ in ONE caller value of the same class give requests that differ in exactly one text node / attribute value / element name. '
+        'Envelope-like names (the profile hooks): caller documents whose elements and attributes are NAMED LIKE the elements the builders, RPC._wrap and the profile hooks create or '
+        'look for (config, filter, source, target, rpc, url, data, operation and parameter names; message-id, type, select), nested 1-3 deep, in no namespace / in the base namespace '
+        '(through a binding of the document root) / in a foreign namespace (default or prefixed) / mixed, for every way a standard operation takes a document (edit_config with a bare, '
+        'default-qualified and nc:-qualified root, rpc config, validate, copy_config source, raw / subtree / list filters of get, get_config, create_subscription, the caller\'s own element of '
+        'dispatch) as str and as element, the SAME call under all 14 profiles: tree oracle per profile, and across profiles the request is the one under the default profile modulo the '
+        'envelope\'s namespace handling (R3 adoption; iosxe: un-namespaced <config> parameter in the base namespace). The hooks themselves (transform_edit_config of all 14 handlers) on '
+        'arbitrary trees with 0-3 un-namespaced <config> direct children among envelope-named children: runner fn 12 (Builders.transform_edit_config) vs the handler, and an oracle: nothing but '
+        'the name of a direct un-namespaced <config> child may change.')
 ASSUMES = ['vendor classes: Python verdicts int(timeout) (junos commit) and bool(comment.strip()) (sros commit) are inputs of the model; caller fragments of vendor calls do not use the base namespace (that class is the open finding envelope_namespace_binding_shadowed, one explicit huawei case); junos timeouts within +-10^12 (binary64 division is exact there)',
            'the server advertises every capability (gating is C09); with-defaults lists the four RFC 6243 modes',
            'lxml verdicts on element names are oracle inputs (catalogue); documents are parsed for the model by the independent reader',
@@ -95,7 +105,7 @@ def esc_t(s): return s.replace('&', '&amp;').replace('<', '&lt;').replace('>', '
 def esc_a(s): return esc_t(s).replace('"', '&quot;').replace('\n', '&#10;').replace('\t', '&#9;')
 
 FR_NS = ['urn:x', 'http://example.com/a?b=c&d', 'urn:ietf:params:xml:ns:yang:ietf-interfaces']     # B below the root: see shadow_cases
-FR_NAMES = ['a', 'b', 'interfaces', 'config', 'data', 'x-y', 'é']
+FR_NAMES = ['a', 'b', 'interfaces', 'config', 'data', 'x-y', 'é', 'filter', 'source', 'target', 'rpc', 'url', 'config']      # incl. names the builders and the profile hooks use themselves (see ENVELOPE_NAMES)
 
 # prefixes a caller uses only INSIDE content (identityref / instance-identifier values, XPath select strings): declared on an
 # element, used by no element or attribute name.  One namespace per prefix (re-binding a prefix is the shadow finding's class).
@@ -714,6 +724,210 @@ def binding_cases():
             dict(profile='default', op='create_subscription', args=dict(stream_name=None, start_time=None, stop_time=None, filter={'kind': 'raw', 'as': 'str', 'xml': '<filter xmlns:ns0="urn:q" type="xpath" select="/ns0:x"/>'}))]
     return out
 
+# ---------------- caller data NAMED LIKE the envelope (round 5; the profiles' hooks: transform_edit_config) ----------------
+# names of the elements the builders, RPC._wrap and the device profiles' hooks create or look for themselves: a data model may use
+# every one of them (OpenConfig has a <config> container in every list entry; <source>, <target>, <filter>, <url>, <data> are ordinary leaves)
+ENVELOPE_CORE = ['config', 'filter', 'source', 'target', 'url', 'rpc', 'data']       # what the hooks / builders patch, rename or search for
+ENVELOPE_NAMES = ENVELOPE_CORE * 3 + ['config', 'edit-config', 'get-config', 'get', 'copy-config', 'validate',
+                  'running', 'candidate', 'default-operation', 'test-option', 'error-option', 'config-text', 'configuration-text', 'with-defaults',
+                  'create-subscription', 'stream', 'startTime', 'rpc-reply', 'ok', 'hello', 'capabilities', 'session-id', 'configuration', 'action']
+ENVELOPE_ATTRS = ['type', 'select', 'message-id', 'operation', 'format']
+def short_str(rng, maxn=3): return ''.join(rng.choice(PIECES) for _ in range(rng.randint(0, maxn))).replace('\r', '')
+FOREIGN = FR_NS[0]          # written with prefix p (one prefix per namespace, as in gen_fragment) or as a default namespace
+
+def env_elem(rng, st, kind, depth, own=None, allow_default=True):
+    """one element named like an envelope element, [depth] levels of such elements below it.
+    st = (default namespace in scope: None | 'B' | 'F', nc bound to the base namespace, p bound to FOREIGN).
+    kind = namespace class of the elements: 'none' | 'base' | 'foreign' | 'mixed' (drawn per element).  An element of class 'none' can only be
+    written where no default namespace is in scope, one of class 'base' only through a binding the ROOT of the document made (a declaration of
+    the base namespace below the root, or nc: below a foreign default namespace, is the class of the open finding envelope_namespace_binding_shadowed):
+    where a class cannot be written the element is written bare, i.e. in the default namespace in scope."""
+    default, nc, pb = st
+    want = kind if kind != 'mixed' else rng.choice(['none', 'base', 'foreign'])
+    name = own if (own and rng.random() < 0.5) else rng.choice(ENVELOPE_NAMES)
+    decl = ''; tag = name
+    if want == 'base' and default != 'B' and nc and default is None: tag = 'nc:' + name
+    elif want == 'foreign' and default != 'F':
+        if pb: tag = 'p:' + name
+        elif allow_default and rng.random() < 0.5: decl = ' xmlns="%s"' % FOREIGN; default = 'F'
+        else: decl = ' xmlns:p="%s"' % FOREIGN; tag = 'p:' + name; pb = True
+    attrs = decl
+    for k in rng.sample(ENVELOPE_ATTRS, rng.choice([0, 0, 1, 2])): attrs += ' %s="%s"' % (k, esc_a(short_str(rng, 3)))
+    body = ''
+    if depth > 0:
+        for _ in range(rng.choice([1, 1, 2, 3])):
+            if rng.random() < 0.2: body += esc_t(short_str(rng, 3))
+            body += env_elem(rng, (default, nc, pb), kind, depth - 1, own)
+    elif rng.random() < 0.8:        # a leaf: text, half of the time with leading / trailing white space (a hook must not normalise it)
+        pad = lambda: rng.choice(['', '', ' ', '\n', '\t ', '  '])
+        body = esc_t(pad() + short_str(rng, 4) + pad())
+    return '<%s%s>%s</%s>' % (tag, attrs, body, tag)
+
+ROOT_FORMS = {'none': ('<%s>%s</%s>', (None, False, False)), 'base-default': ('<%s xmlns="' + B + '">%s</%s>', ('B', False, False)),
+              'base-nc': ('<nc:%s xmlns:nc="' + B + '">%s</nc:%s>', (None, True, False))}
+KIND_ROOTS = {'none': ['none', 'base-nc'], 'base': ['base-default', 'base-nc'], 'foreign': ['none', 'base-default', 'base-nc'], 'mixed': ['none', 'base-default', 'base-nc']}
+
+def env_doc(rng, root, rootform, kind, depth=None):
+    """a document rooted at the parameter element [root] (config / filter / source) whose content is named like the envelope; its first
+    child is named like the root itself half of the time"""
+    fmt, st = ROOT_FORMS[rootform]
+    depth = rng.choice([0, 1, 2, 2]) if depth is None else depth
+    inner = ''.join(env_elem(rng, st, kind, depth, own=root) for _ in range(rng.choice([1, 2, 3])))
+    return fmt % (root, inner, root)
+
+def env_top(rng, kind, own, allow_default=True):
+    """a fragment without a parameter root (subtree filter, the caller's own command element): the top element itself is named like the envelope"""
+    if kind == 'base':
+        if allow_default: return env_doc(rng, rng.choice([own, 'rpc', 'config', 'filter']), 'base-default', 'base')
+        return env_doc(rng, rng.choice([own, 'rpc', 'config']), 'base-nc', rng.choice(['base', 'none']))
+    return env_elem(rng, (None, False, False), kind, rng.choice([1, 2]), own, allow_default)
+
+def envelope_name_protos(rng):
+    """[(op, args)]: every way a standard operation takes a caller document x namespace class of the envelope-like names x str / element"""
+    e = dict(format='xml', target='running', default_operation=None, test_option=None, error_option=None)
+    sub = dict(stream_name=None, start_time=None, stop_time=None)
+    out = []
+    for kind in ('none', 'base', 'foreign', 'mixed'):
+        for as_ in ('str', 'ele'):
+            D = lambda root, rf: {'xml': env_doc(rng, root, rf, kind), 'as': as_}
+            for rf in KIND_ROOTS[kind]:
+                out.append(('edit_config', dict(e, config=D('config', rf), default_operation=rng.choice([None, 'merge']), target=rng.choice(['running', 'candidate']))))
+            rf = lambda: rng.choice(KIND_ROOTS[kind])
+            out.append(('rpc', dict(rpc_command={'name': 'get-something'}, source=None, target='candidate', filter=None, config=D('config', rf()))))
+            out.append(('validate', dict(source={'xml': env_doc(rng, 'config', rf(), kind), 'as': 'ele'})))
+            out.append(('copy_config', dict(target='startup', source=D('source', rf()))))
+            out.append(('get', dict(with_defaults=None, filter={'kind': 'raw', 'xml': env_doc(rng, 'filter', rf(), kind), 'as': as_})))
+            out.append(('get', dict(with_defaults=None, filter={'kind': 'subtree', 'xml': env_top(rng, kind, 'filter'), 'as': as_})))
+            out.append(('get_config', dict(source='running', with_defaults=None, filter={'kind': 'list', 'xmls': [env_top(rng, kind, 'filter'), env_top(rng, kind, 'config')], 'as': as_})))
+            out.append(('create_subscription', dict(sub, filter={'kind': 'subtree', 'xml': env_top(rng, kind, 'filter'), 'as': as_})))
+            out.append(('create_subscription', dict(sub, filter={'kind': 'raw', 'xml': env_doc(rng, 'filter', rf(), kind), 'as': as_})))
+            out.append(('dispatch', dict(rpc_command={'xml': env_top(rng, kind, 'edit-config', allow_default=False), 'as': 'ele'}, source=None,
+                                         filter={'kind': 'subtree', 'xml': env_top(rng, kind, 'filter'), 'as': as_})))
+    return out
+
+def envelope_name_cases(rng, tier):
+    """each proto under ALL 14 profiles (the same document: the requests of one proto are compared across profiles by profile_frame)"""
+    from harness import capture
+    groups = []
+    for _ in range(1 if tier == 'quick' else 8):
+        for op, args in envelope_name_protos(rng):
+            groups.append([dict(profile=prof, op=op, args=json.loads(json.dumps(args))) for prof in capture.PROFILES
+                           if not (prof == 'junos' and op == 'rpc')])        # junos overrides rpc (vendor block)
+    return groups
+
+def blank_mid(t):
+    return ['E', t[1], t[2], [[a[0], a[1], '' if (a[0], a[1]) == ('', 'message-id') else a[2]] for a in t[3]], t[4]]
+
+def hook_expect(opel):
+    """what a profile hook documented as 'patch the namespace of the un-namespaced <config> parameter' may do to the operation element"""
+    bare = [i for i, c in enumerate(opel[4]) if c[0] == 'E' and (c[1], c[2]) == ('', 'config')]
+    if len(bare) != 1: return opel
+    kids = list(opel[4]); c = kids[bare[0]]; kids[bare[0]] = ['E', B, 'config', c[3], c[4]]
+    return ['E', opel[1], opel[2], opel[3], kids]
+
+def profile_frame(group, results):
+    """The quantifier of C07: device profiles change prefixes / the default namespace of the envelope - nothing an independent reader of the
+    request sees, except (R3) that un-namespaced elements are read in the base namespace under a default-namespace envelope and (iosxe, edit-config)
+    that the un-namespaced <config> parameter is in the base namespace.  One call, all profiles: the request under each profile is the request
+    under the default profile modulo exactly that.  -> [(index, what, sig, expected, actual)]"""
+    from harness import capture
+    def tree(r):
+        if r['exc'] is not None or len(r['sent']) != 1: return ('refused', r['exc'], len(r['sent']))
+        try: return blank_mid(capture.read_independent(r['sent'][0]))
+        except Exception: return ('ill-formed',)
+    ref = [i for i, c in enumerate(group) if c['profile'] == 'default']
+    if not ref: return []
+    t0 = tree(results[ref[0]]); out = []
+    for i, (case, r) in enumerate(zip(group, results)):
+        if i == ref[0]: continue
+        exp = t0
+        if isinstance(exp, list):
+            if case['profile'] == 'iosxe' and case['op'] == 'edit_config' and len(elems(exp)) == 1:
+                exp = ['E', exp[1], exp[2], exp[3], [hook_expect(elems(exp)[0])]]
+            if case['profile'] in DEFAULT_NS_PROFILES: exp = adopt(exp)
+        got = tree(r)
+        if got != exp:
+            out.append((i, 'the request of the same call differs between the profiles default and %s in more than the envelope\'s namespace handling' % case['profile'],
+                        'profile_changes_request', exp, got))
+    return out
+
+def run_envelope_names(ctx):
+    groups = envelope_name_cases(ctx.rng, ctx.tier)
+    flat = [c for g in groups for c in g]
+    results = run_cases(ctx, flat)
+    at = 0
+    for g in groups:
+        rs = results[at:at + len(g)]; at += len(g)
+        ctx.hist('envelope_names', g[0]['op'])
+        for i, what, sig, exp, got in profile_frame(g, rs):
+            if shadow_pred(g[i]): sig = 'envelope_namespace_binding_shadowed'
+            ctx.fail(json.loads(key_of(g[i])), what, sig=sig, expected={'tree under the default profile, as this profile\'s reader sees it': str(exp)[:1500]}, actual={'tree': str(got)[:1500], 'sent': [x[:600] for x in rs[i]['sent']]})
+
+# ---- the hooks themselves, on arbitrary trees (runner fn 12: Builders.transform_edit_config) ----
+def hook_docs(rng, n):
+    """<edit-config>-like elements with 0..3 un-namespaced <config> DIRECT children among other children named like the envelope, in all
+    namespace classes, each with envelope-named content"""
+    out = []
+    for j in range(n):
+        k = [0, 1, 1, 2, 3, 1][j % 6]
+        st = (None, True, False)
+        kids = [env_doc(rng, 'config', 'none', rng.choice(['none', 'foreign', 'mixed']), rng.choice([0, 1, 2])) for _ in range(k)]
+        kids += ['<nc:target><nc:running/></nc:target>'] * rng.choice([0, 1])
+        kids += [env_elem(rng, st, rng.choice(['none', 'base', 'foreign', 'mixed']), rng.choice([0, 1, 2]), 'config') for _ in range(rng.choice([0, 1, 2]))]
+        if rng.random() < 0.3: kids.append('<nc:config>%s</nc:config>' % env_elem(rng, st, 'none', 1, 'config'))
+        if rng.random() < 0.3: kids.append('<filter><config>%s</config></filter>' % esc_t(short_str(rng, 3)))
+        rng.shuffle(kids)
+        root = rng.choice(['nc:edit-config', 'nc:edit-config', 'config', 'nc:config', 'p:edit-config', 'rpc'])
+        out.append('<%s xmlns:nc="%s" xmlns:p="%s">%s</%s>' % (root, B, FOREIGN, ''.join(kids), root))
+    return out
+
+def hook_run(profile, doc):
+    """the profile's real handler on the parsed document -> canonical tree of what it returns | ('exc', name) | ('returned', type name)"""
+    from lxml import etree
+    from ncclient import manager
+    from harness import capture
+    dh = manager.make_device_handler({'name': profile})
+    node = etree.fromstring(doc.encode('utf-8'))
+    try: res = dh.transform_edit_config(node)
+    except Exception as e: return ('exc', type(e).__name__)
+    if not isinstance(res, etree._Element): return ('returned', type(res).__name__)
+    return capture.read_independent(etree.tostring(res, encoding='unicode'))
+
+def hook_verdict(case, before, after):
+    """(what, sig) when the hook touched anything but the NAME of a direct un-namespaced <config> child (-> {base}config)"""
+    if not isinstance(after, list): return ('the hook did not return a tree: %r' % (after,), 'hook_alters_caller_data')
+    if (after[1], after[2], after[3]) != (before[1], before[2], before[3]) or len(after[4]) != len(before[4]):
+        return ('the hook changed the name / attributes / number of children of the element it was given', 'hook_alters_caller_data')
+    for x, y in zip(before[4], after[4]):
+        if x == y: continue
+        if x[0] == 'E' and y[0] == 'E' and (x[1], x[2]) == ('', 'config') and (y[1], y[2]) == (B, 'config') and x[3:] == y[3:]: continue
+        return ('the hook altered a child other than by moving an un-namespaced <config> to the base namespace: %s -> %s' % (str(x)[:200], str(y)[:200]), 'hook_alters_caller_data')
+    return None
+
+def judge_hook(case):
+    from harness import capture
+    before = capture.read_independent(case['doc']); after = hook_run(case['profile'], case['doc'])
+    return after, hook_verdict(case, before, after)
+
+def run_hooks(ctx):
+    from harness import capture
+    docs = hook_docs(ctx.rng, 12 if ctx.tier == 'quick' else 120)
+    cases = [dict(hook='transform_edit_config', profile=prof, doc=d) for d in docs for prof in capture.PROFILES]
+    befores = [capture.read_independent(c['doc']) for c in cases]
+    afters = [hook_run(c['profile'], c['doc']) for c in cases]
+    outs = ctx.model.batch([[12, 1 if c['profile'] == 'iosxe' else 0, capture.enc_tree(b)] for c, b in zip(cases, befores)]) if ctx.model else None
+    for i, (c, b, a) in enumerate(zip(cases, befores, afters)):
+        ctx.count(c, nontrivial=True, key=key_of(c))
+        nb = sum(1 for k in b[4] if k[0] == 'E' and (k[1], k[2]) == ('', 'config'))
+        ctx.hist('hook_bare_config_children', nb); ctx.hist('hook_outcome', 'unchanged' if a == b else 'changed' if isinstance(a, list) else str(a))
+        j = hook_verdict(c, b, a)
+        if j: ctx.fail(c, j[0], sig=j[1], expected='the tree it was given, an un-namespaced <config> direct child possibly in the base namespace', actual=str(a)[:1500])
+        if outs is not None:
+            mo = outs[i]
+            if isinstance(mo, str) or (mo and mo[0] == 999): ctx.disagree(c, repr(mo), None, 'model runner rejected the tree encoding (hook)'); continue
+            mt = capture.model_tree(mo)
+            if mt != a: ctx.disagree(c, mt, a, 'Builders.transform_edit_config vs the profile handler\'s transform_edit_config', theorem='C07_hook_frame')
+
 def invalid_text(s):
     if not isinstance(s, str): return True
     return any((ord(ch) < 32 and ch not in '\t\n\r') or ord(ch) in (0xFFFE, 0xFFFF) or 0xD800 <= ord(ch) <= 0xDFFF for ch in s)
@@ -840,6 +1054,7 @@ def run_cases(ctx, cases):
         j = oracle(case, r, dns, case['profile'] == 'iosxe')
         if j: ctx.fail(kcase, j[0], sig=j[1], expected='schema instance carrying the caller data / local rejection', actual={'exc': r['exc'], 'sent': [x[:400] for x in r['sent']]})
     check_bindings(ctx, cases, results, [json.loads(key_of(c)) for c in cases])
+    return results
 
 def judge(case):
     """(result, first verdict of the tree oracle and the binding oracle)"""
@@ -930,6 +1145,8 @@ def run(ctx):
         if 'vop' in c: vendorops.run_vendor_cases(ctx, [c])
         else: run_cases(ctx, [c])
     run_cases(ctx, binding_cases())
+    run_envelope_names(ctx)
+    run_hooks(ctx)
     vendor_cases(ctx)
     escape_micro(ctx, ctx.rng, 300 if ctx.tier == 'quick' else 5000)
     run_cases(ctx, shadow_cases())
@@ -940,8 +1157,15 @@ def run(ctx):
 def search(ctx, seeds):
     from harness import vendorops
     from vlib import findings
-    tries = list(seeds) + binding_cases() + vendorops.gen_vendor_cases(ctx.rng, 'quick') + gen_cases(ctx.rng, 'quick')
+    tries = list(seeds) + binding_cases() + [c for g in envelope_name_cases(ctx.rng, 'quick') for c in g] + vendorops.gen_vendor_cases(ctx.rng, 'quick') + gen_cases(ctx.rng, 'quick')
+    tries += [dict(hook='transform_edit_config', profile=prof, doc=d) for d in hook_docs(ctx.rng, 12) for prof in ('iosxe', 'default', 'junos', 'alu')]
+    tries += [c for g in envelope_name_cases(ctx.rng, 'thorough') for c in g]          # the tie of a hook broke: the same class of cases, eight times as many
     for case in tries:
+        if 'hook' in case:
+            try: a, j = judge_hook(case)
+            except Exception: continue
+            if j: return dict(case=json.loads(key_of(case)), what=j[0], sig=j[1], expected='the tree the hook was given, an un-namespaced <config> direct child possibly in the base namespace', actual=str(a)[:1500])
+            continue
         if 'vop' in case:
             try: r, j = vendorops.judge(case)
             except Exception: continue
@@ -964,6 +1188,7 @@ def reproduce(finding):
     if 'vop' in case:
         from harness import vendorops
         return vendorops.judge(case)[1] is not None
+    if 'hook' in case: return judge_hook(case)[1] is not None
     return judge(case)[1] is not None
 
 def _replay_enum(c):
@@ -991,6 +1216,13 @@ def replay(doc):
         print('actual   :', {'exc': r['exc'], 'sent': [x[:600] for x in r['sent']]})
         if j: print('verdict  :', j, '(open known finding)' if findings.covered(ID, j[1]) else '')
         return j is None or findings.covered(ID, j[1])
+    if 'hook' in case:
+        a, j = judge_hook(case)
+        print('case     :', case)
+        print('expected : the tree the hook was given; only an un-namespaced <config> DIRECT child may have moved to the base namespace')
+        print('actual   :', str(a)[:1500])
+        if j: print('verdict  :', j)
+        return j is None
     if 'op' not in case:
         print('case is a micro-check of the escaping model:', case); return True
     r, j = judge(case)
